@@ -57,7 +57,7 @@ FreeNew == Mut /\ ClearAll /\ UNCHANGED it
 
 \* callback iteration over all entries; the callback removes the current entry iff its key is in rm.
 \* obs = <<ret, number of callback invocations>> \o multiset of visited keys is compared by the driver as "each live key once"
-IterateRm(rm) == /\ Mut /\ Dom # {} /\ rm \subseteq Keys
+IterateRm(rm) == /\ Mut /\ Dom # {}
                  /\ m' = [x \in Dom \ rm |-> m[x]]
                  /\ fate' = [v \in Vals |-> IF \E k \in Dom \cap rm : m[k] = v THEN Gone ELSE fate[v]]
                  /\ obs' = <<0, Cardinality(Dom), 1>>          \* ret, #invocations, flag "every live key exactly once"
